@@ -52,11 +52,25 @@ def se_attr_number(w, a):
 # model predicates and snapshots
 
 
-def self_contained(m, ir):
-    """C01's precondition, evaluated on the model."""
+def self_contained(m, ir, cross="none"):
+    """C01's precondition, evaluated on the model. cross="none": symbol referents, entry
+    points and expression symbols stay inside their module (C01's wording). cross="backward":
+    they may also name nodes of a module EARLIER in the module list - files gtirb's staged
+    decoder loads too ("any loadable file", C02 reader / C09 / C17)."""
     sub = m.subtree(ir)
     attached = set(sub)
     n = m.nodes[ir]
+    order = {ml: i for i, ml in enumerate(n.a["modules"])}
+
+    def ok(ref, frm):
+        """may node `frm` refer to node `ref`?"""
+        if ref not in attached:
+            return False
+        a, b = m.ancestor(ref, "mod"), m.ancestor(frm, "mod")
+        if a == b:
+            return True
+        return cross == "backward" and a in order and b in order and order[a] < order[b]
+
     if n.a["version"] != 4:
         return False
     uu = [m.nodes[l].uuid for l in sub]
@@ -69,12 +83,12 @@ def self_contained(m, ir):
         x = m.nodes[l]
         if x.kind == "mod":
             ep = x.a["entry_point"]
-            if ep is not None and (ep not in attached or m.ancestor(ep, "mod") != l):
+            if ep is not None and not ok(ep, l):
                 return False
         elif x.kind == "sym":
             p = x.a["payload"]
             if p is not None and p[0] == "ref":
-                if p[1] not in attached or m.ancestor(p[1], "mod") != m.ancestor(l, "mod"):
+                if not ok(p[1], l):
                     return False
             if p is not None and p[0] == "int" and not (0 <= p[1] < 2**64):
                 return False
@@ -85,7 +99,7 @@ def self_contained(m, ir):
                     return False
                 spec = cell[0]
                 for s in ([spec[2]] if spec[0] == "ac" else [spec[3], spec[4]]):
-                    if s not in attached or m.ancestor(s, "mod") != mod:
+                    if not ok(s, l):
                         return False
             if len(x.a["contents"]) > x.a["size"]:
                 return False
@@ -99,7 +113,7 @@ def snapshot(w, ir, writer="gtirb"):
         "ir": ir,
         "nodes": m.clone_subset(sub),
         "order": list(sub),
-        "self_contained": self_contained(m, ir),
+        "self_contained": self_contained(m, ir, w.cfg.get("cross_module_refs", "none")),
         "uuid2label": {m.nodes[l].uuid: l for l in sub},
         "writer": writer,
     }
